@@ -676,6 +676,24 @@ fn rot_case(cfg: &Cfg, grp: &str, case: u64, rep: &mut Report, rng: &mut Rng, co
             }
         }
     }
+    // ---- the list forms of the step -> element map: get_elts_from_steps is the element-wise map; get_elts_all is the column
+    //      swap plus the elements of the steps +-2^j (2^j < N/2), which is what default Galois keys are generated for
+    if h >= 2 {
+        let steps: Vec<isize> = (0..6).map(|_| step_of(rng.usize_below(nsteps.max(1)), h)).chain([0isize]).collect();
+        if let Some(got) = call!(x, rep, "get_elts_from_steps", "list", format!("{:?}", steps), tool.get_elts_from_steps(&steps)) {
+            rep.count("tool_entry_points", "get_elts_from_steps");
+            let want: Vec<Option<usize>> = steps.iter().map(|&st| lib(|| tool.get_elt_from_step(st)).ok()).collect();
+            if got.iter().map(|&g| Some(g)).collect::<Vec<_>>() != want { x.viol(rep, "get_elts_from_steps", "list", "value", format!("get_elts_from_steps({:?}) = {:?} but element-wise {:?}", steps, got, want), json!({"steps": steps})); }
+        }
+        if let Some(got) = call!(x, rep, "get_elts_all", "list", "-", tool.get_elts_all()) {
+            rep.count("tool_entry_points", "get_elts_all");
+            let m = 2 * n as u64;
+            let mut want: Vec<usize> = vec![2 * n - 1];
+            let mut j = 1usize; while j < h { let e = refm::powmod(3, j as u64, m) as usize; want.push(e); want.push(refm::invmod(e as u64, m).unwrap() as usize); j *= 2; }
+            let (mut g2, mut w2) = (got.clone(), want.clone()); g2.sort(); g2.dedup(); w2.sort(); w2.dedup();
+            if g2 != w2 { x.viol(rep, "get_elts_all", "list", "value", format!("get_elts_all() = {:?} but the column swap and the steps +-2^j give {:?}", got, want), json!({"n": n})); }
+        }
+    }
     // ---- the tool's own polynomial entry points (apply / apply_p / apply_ps) on RNS polynomial stacks:
     //      pcount polynomials x k moduli, pcount != k in most draws; every component must be the automorphism
     //      X -> X^elt of the matching input component modulo the matching modulus, destination pre-filled with garbage
@@ -707,6 +725,29 @@ fn rot_case(cfg: &Cfg, grp: &str, case: u64, rep: &mut Report, rng: &mut Rng, co
             if call!(x, rep, "GaloisTool::apply_p", &class, &inp, tool.apply_p(&polys[..k * n], elt, moduli, &mut out1)).is_some() {
                 rep.count("tool_entry_points", "apply_p");
                 if out1[..] != want[..k * n] { x.viol(rep, "GaloisTool::apply_p", &class, "value", format!("apply_p({}) is not the per-modulus automorphism X->X^{} of the input: got {}, expected {}", inp, elt, tr(&out1), tr(&want[..k * n])), json!({"k": k, "elt": elt})); }
+            }
+            // the NTT-domain forms (a permutation of the evaluation points, tables cached on first use): transforming, permuting
+            // and transforming the coefficient-domain expectation must meet (the transform itself is C09's subject)
+            {
+                let tables = kcd.small_ntt_tables();
+                let fwd = |v: &[u64]| -> Vec<u64> { let mut o = v.to_vec(); for c in 0..v.len() / n { tables[c % k].ntt_negacyclic_harvey(&mut o[c * n..(c + 1) * n]); } o };
+                if let (Ok(xin), Ok(wn)) = (lib(|| fwd(&polys)), lib(|| fwd(&want))) {
+                    let mut on = vec![0x5a5a_5a5a_5a5a_5a5au64; pcount * k * n];
+                    if call!(x, rep, "GaloisTool::apply_ntt_ps", &class, &inp, tool.apply_ntt_ps(&xin, pcount, k, elt, &mut on)).is_some() {
+                        rep.count("tool_entry_points", "apply_ntt_ps");
+                        if on != wn { x.viol(rep, "GaloisTool::apply_ntt_ps", &class, "value", format!("apply_ntt_ps({}) is not the transform of the automorphism X->X^{} of the inputs (first differing word {:?})", inp, elt, first_diff(&on, &wn)), json!({"pcount": pcount, "k": k, "elt": elt})); }
+                    }
+                    let mut o1 = vec![0x5a5a_5a5a_5a5a_5a5au64; k * n];
+                    if call!(x, rep, "GaloisTool::apply_ntt_p", &class, &inp, tool.apply_ntt_p(&xin[..k * n], k, elt, &mut o1)).is_some() {
+                        rep.count("tool_entry_points", "apply_ntt_p");
+                        if o1[..] != wn[..k * n] { x.viol(rep, "GaloisTool::apply_ntt_p", &class, "value", format!("apply_ntt_p({}) is not the transform of the automorphism X->X^{} of the input (first differing word {:?})", inp, elt, first_diff(&o1, &wn[..k * n])), json!({"k": k, "elt": elt})); }
+                    }
+                    let mut o0 = vec![0x5a5a_5a5a_5a5a_5a5au64; n];
+                    if call!(x, rep, "GaloisTool::apply_ntt", &class, &inp, tool.apply_ntt(&xin[..n], elt, &mut o0)).is_some() {
+                        rep.count("tool_entry_points", "apply_ntt");
+                        if o0[..] != wn[..n] { x.viol(rep, "GaloisTool::apply_ntt", &class, "value", format!("apply_ntt({}) is not the transform of the automorphism X->X^{} of the input (first differing word {:?})", inp, elt, first_diff(&o0, &wn[..n])), json!({"elt": elt})); }
+                    }
+                }
             }
             let mut out0 = vec![0x5a5a_5a5a_5a5a_5a5au64; n];
             if call!(x, rep, "GaloisTool::apply", &class, &inp, tool.apply(&polys[..n], elt, &moduli[0], &mut out0)).is_some() {
